@@ -14,9 +14,10 @@ Feeders == {"sumdb", "tiles", "pixel", "rekor", "serverless", "rekor-shards"}
 WitnessStates == {"none", "held"}
 \* what the log's checkpoint endpoint answers
 CpClasses == {"valid", "size0", "size2^62", "size2^62+", "size2^63", "size2^64-1", "hash0", "hash5", "hash33", "badsig", "truncated", "oversized", "random", "status404", "status500", "empty",
-              "json-null-shard", "json-inactive-shard", "json-odd-types"}
+              "json-null-shard", "json-inactive-shard", "json-odd-types", "throttled"}
 \* what its tile / proof endpoints answer
-DataClasses == {"valid", "truncated", "oversized", "random", "status404", "status500", "empty", "json-null", "json-odd"}
+\* ("throttled": 429 with Retry-After: 30 - the server asks for patience; the cycle still ends with its context)
+DataClasses == {"valid", "truncated", "oversized", "random", "status404", "status500", "empty", "json-null", "json-odd", "throttled"}
 \* what the DISTRIBUTOR answers to the PUT of a witnessed checkpoint (one cycle of the REST distributor, run as Main runs it: with the
 \* process context, which has no deadline; only the HTTP client has a timeout)
 DistAnswers == {"200", "status404", "status500", "empty", "oversized", "random", "redirect-loop", "redirect-elsewhere",
